@@ -404,12 +404,16 @@ def m_dict(I, args, kwargs):
 
 @model(builtins.iter)
 def m_iter(I, args, kwargs):
-    return ops.iterate(I, args[0])
+    if isinstance(args[0], ops.OneShot):
+        return args[0]
+    return ops.OneShot(ops.iterate(I, args[0]))
 
 
 @model(builtins.next)
 def m_next(I, args, kwargs):
     it = args[0]
+    if isinstance(it, ops.OneShot):
+        it = it.items
     if isinstance(it, list):
         if it:
             return it.pop(0)
